@@ -387,6 +387,18 @@ def c08(cases, warm, f64=False):
             if len(set(b.raw.split("@")[0] for b in c.obs)) != 1:
                 out.append(viol("c08-starved", "%s changed its answer although its inner view never delivered" % d_sexpr(c.desc), [c]))
             continue
+        # nothing can be reported before anything was delivered: reads before the first update, and a wrapper whose inner
+        # Sma(3) has not delivered yet (the first two updates)
+        early = 2 if c.meta.get("regime") == "read-before-first-update" else (3 if (c.ops and c.ops[0][0] == "l" and c.desc[-1] == ("Sma", 3, E) and name not in ("Pfe", "Eft")) else 0)
+        # only for the views whose warm-up C08 documents (a first value at the k-th delivered value, k >= 1); Welford/Vst/Vsct with N = 1 may
+        # report at N-1 = 0 values, and C08 is silent on the others (HLNormalizer(1) does answer 0 before any value: allowed)
+        n_ = c.desc[1] if len(c.desc) > 1 and isinstance(c.desc[1], int) else None
+        documented = name in ("Sma", "Ema", "Ss", "Rsi", "MyRsi", "Roofing", "LnReturn", "Min", "Max", "Cumulative", "Alma", "AlmaCustom", "EmaAlpha", "Cog", "Entropy",
+                              "Gte", "Lte", "Tanh", "Laguerre") or (name in ("Welford", "Vst", "Vsct") and n_ is not None and n_ >= 2)
+        if documented and any(o is not None for o in obs[:early]):
+            t = next(i for i, o in enumerate(obs[:early]) if o is not None)
+            out.append(viol("c08-early-" + name.lower(), "%s reports a value at operation %d (%s) although nothing has been delivered to it yet" % (d_sexpr(c.desc), t + 1, c.obs[t].raw), [c]))
+            continue
         seen = False
         for t, o in enumerate(obs):
             if o == "v":
@@ -397,8 +409,9 @@ def c08(cases, warm, f64=False):
         if f64 or c.meta.get("chain") or c.desc[-1] != E:
             continue
         n = c.desc[1] if len(c.desc) > 1 and isinstance(c.desc[1], int) else None
-        first = next((t + 1 for t, o in enumerate(obs) if o == "v"), None)
-        L = len(obs)
+        uobs = [o for o, op in zip(obs, c.ops) if op[0] in ("u", "v")]
+        first = next((t + 1 for t, o in enumerate(uobs) if o == "v"), None)
+        L = len(uobs)
         exp = None
         if name in warm:
             exp = warm[name](n)
